@@ -62,6 +62,15 @@ const BOOT = new vm.Script(`(function (h, methods) {
   Object.defineProperty(D, 'prototype', { value: RD.prototype, writable: false, enumerable: false, configurable: false });
   def(D, 'now', function now() { return 0; }); def(D, 'parse', RD.parse); def(D, 'UTC', RD.UTC);
   def(RD.prototype, 'constructor', D); def(globalThis, 'Date', D);
+  // the SOURCE TEXT of a function of the program is data the rewriter legitimately changes (it reformats
+  // and instruments the text): a run that reads it (explicitly or by coercing a function to a string)
+  // is marked and not compared
+  const FT = Function.prototype.toString;
+  def(Function.prototype, 'toString', function toString() {
+    const s = FT.call(this);
+    if (!/\\{\\s*\\[native code\\]\\s*\\}$/.test(s)) h.srcText();
+    return s;
+  });
   const intr = { FunctionPrototype: Function.prototype };
   for (const n of h.errClasses) intr[n] = globalThis[n];
   return { K, tag, intr };
@@ -284,6 +293,7 @@ function newRun(job, resp, side) {
       emit({ e: 'call', f: id, t: repr(self), a: reprs(args) }, eff);
       return answer(eff, 'call', () => mk(id + '()#' + n));
     },
+    srcText() { R.srctext = true; },
     tagCall(self, args) {
       const n = count('call|tag');
       const eff = 'call:tag()#' + n;
@@ -567,6 +577,7 @@ async function runOne(job, resp, side) {
   }
   if (R.overflow) outcome = { k: 'overflow' };
   const res = { log: R.log };
+  if (R.srctext) res.srctext = true;
   if (side === 'out') {
     res.hooks = R.hooks;
     if (job.ddiast === 'absent') {
